@@ -11,13 +11,11 @@ import (
 	"go/token"
 	"go/types"
 	"os"
-	"reflect"
 	"strings"
 	"unsafe"
 
 	"golang.org/x/tools/go/ssa"
-	"golang.org/x/tools/internal/typeparams"
-)
+	)
 
 // If the target program panics, the interpreter panics with this type.
 type targetPanic struct {
@@ -256,12 +254,9 @@ func zero(t types.Type) value {
 		}
 		return s
 	case *types.Chan:
-		return chan value(nil)
+		return (*schan)(nil)
 	case *types.Map:
-		if usesBuiltinMap(t.Key()) {
-			return map[value]value(nil)
-		}
-		return (*hashmap)(nil)
+		return (*amap)(nil)
 	case *types.Signature:
 		return (*ssa.Function)(nil)
 	}
@@ -269,33 +264,43 @@ func zero(t types.Type) value {
 }
 
 // slice returns x[lo:hi:max].  Any of lo, hi and max may be nil.
-func slice(x, lo, hi, max value) value {
+func slice(fr *frame, x, lo, hi, max value) value {
+	if sx, ok := x.(*sym); ok {
+		return symStringSlice(fr, sx, lo, hi)
+	}
+	if s, ok := x.(string); ok && (isSym(lo) || isSym(hi)) {
+		return symStringSlice(fr, symOf(s), lo, hi)
+	}
 	var Len, Cap int
 	switch x := x.(type) {
 	case string:
 		Len = len(x)
+		Cap = len(x)
 	case []value:
 		Len = len(x)
 		Cap = cap(x)
 	case *value: // *array
-		a := (*x).(array)
+		a := (*derefPtr(x, "slice")).(array)
 		Len = len(a)
 		Cap = cap(a)
 	}
 
 	l := int64(0)
 	if lo != nil {
-		l = asInt64(lo)
+		l = fr.i.pc.concretize(fr, lo, 0, Cap, "slice low")
 	}
 
 	h := int64(Len)
 	if hi != nil {
-		h = asInt64(hi)
+		h = fr.i.pc.concretize(fr, hi, 0, Cap, "slice high")
 	}
 
 	m := int64(Cap)
 	if max != nil {
-		m = asInt64(max)
+		m = fr.i.pc.concretize(fr, max, 0, Cap, "slice max")
+	}
+	if l < 0 || h < l || m < h || m > int64(Cap) {
+		panic(runtimePanic{fmt.Sprintf("runtime error: slice bounds out of range [%d:%d:%d] with capacity %d", l, h, m, Cap)})
 	}
 
 	switch x := x.(type) {
@@ -307,22 +312,58 @@ func slice(x, lo, hi, max value) value {
 		a := (*x).(array)
 		return []value(a)[l:h:m]
 	}
-	panic(fmt.Sprintf("slice: unexpected X type: %T", x))
+	panic(engineErr(fmt.Sprintf("slice: unexpected X type: %T", x)))
+}
+
+// symStringSlice implements s[lo:hi] on a symbolic string / symbolic bounds.
+func symStringSlice(fr *frame, s *sym, lo, hi value) value {
+	pc := fr.i.pc
+	slen := "(str.len " + s.e + ")"
+	l := "0"
+	if lo != nil {
+		l = intTerm(lo)
+	}
+	h := slen
+	if hi != nil {
+		h = intTerm(hi)
+	}
+	// bounds check: 0 <= l <= h <= len
+	okTerm := smtAnd([]string{"(<= 0 " + l + ")", "(<= " + l + " " + h + ")", "(<= " + h + " " + slen + ")"})
+	if !pc.decide(okTerm, fr) {
+		panic(runtimePanic{"runtime error: slice bounds out of range (string)"})
+	}
+	return &sym{s: sStr, e: "(str.substr " + s.e + " " + l + " (- " + h + " " + l + "))"}
+}
+
+// stringIndex implements s[i] for strings.
+func stringIndex(fr *frame, x, idx value) value {
+	sx, xsym := x.(*sym)
+	_, isym := idx.(*sym)
+	if !xsym && !isym {
+		s := x.(string)
+		i := asInt64(idx)
+		if i < 0 || i >= int64(len(s)) {
+			panic(indexPanic(i, len(s)))
+		}
+		return s[i]
+	}
+	if !xsym {
+		sx = symOf(x)
+	}
+	it := intTerm(idx)
+	ok := smtAnd([]string{"(<= 0 " + it + ")", "(< " + it + " (str.len " + sx.e + "))"})
+	if !fr.i.pc.decide(ok, fr) {
+		panic(runtimePanic{"runtime error: index out of range (string)"})
+	}
+	code := "(str.to_code (str.at " + sx.e + " " + it + "))"
+	return &sym{s: sBV, w: 8, e: "((_ int2bv 8) " + code + ")", ie: code}
 }
 
 // lookup returns x[idx] where x is a map.
-func lookup(instr *ssa.Lookup, x, idx value) value {
+func lookup(fr *frame, instr *ssa.Lookup, x, idx value) value {
 	switch x := x.(type) { // map or string
-	case map[value]value, *hashmap:
-		var v value
-		var ok bool
-		switch x := x.(type) {
-		case map[value]value:
-			v, ok = x[idx]
-		case *hashmap:
-			v = x.lookup(idx.(hashable))
-			ok = v != nil
-		}
+	case *amap:
+		v, ok := x.lookup(fr, idx)
 		if !ok {
 			v = zero(instr.X.Type().Underlying().(*types.Map).Elem())
 		}
@@ -330,14 +371,28 @@ func lookup(instr *ssa.Lookup, x, idx value) value {
 			v = tuple{v, ok}
 		}
 		return v
+	case string, *sym:
+		return stringIndex(fr, x, idx)
 	}
-	panic(fmt.Sprintf("unexpected x type in Lookup: %T", x))
+	panic(engineErr(fmt.Sprintf("unexpected x type in Lookup: %T", x)))
 }
 
 // binop implements all arithmetic and logical binary operators for
 // numeric datatypes and strings.  Both operands must have identical
 // dynamic type.
-func binop(op token.Token, t types.Type, x, y value) value {
+func binop(fr *frame, op token.Token, t types.Type, x, y value) value {
+	if _, ok := x.(*sym); ok {
+		return symBinop(fr, op, t, x, y)
+	}
+	if _, ok := y.(*sym); ok {
+		return symBinop(fr, op, t, x, y)
+	}
+	switch op {
+	case token.QUO, token.REM:
+		if isIntZero(y) {
+			panic(runtimePanic{"runtime error: integer divide by zero"})
+		}
+	}
 	switch op {
 	case token.ADD:
 		switch x.(type) {
@@ -816,10 +871,8 @@ func eqnil(t types.Type, x, y value) bool {
 		// Since these types don't support comparison,
 		// one of the operands must be a literal nil.
 		switch x := x.(type) {
-		case *hashmap:
-			return (x != nil) == (y.(*hashmap) != nil)
-		case map[value]value:
-			return (x != nil) == (y.(map[value]value) != nil)
+		case *amap:
+			return (x != nil) == (y.(*amap) != nil)
 		case *ssa.Function:
 			switch y := y.(type) {
 			case *ssa.Function:
@@ -838,10 +891,41 @@ func eqnil(t types.Type, x, y value) bool {
 	return equals(t, x, y)
 }
 
-func unop(instr *ssa.UnOp, x value) value {
+func isIntZero(y value) bool {
+	switch y := y.(type) {
+	case int:
+		return y == 0
+	case int8:
+		return y == 0
+	case int16:
+		return y == 0
+	case int32:
+		return y == 0
+	case int64:
+		return y == 0
+	case uint:
+		return y == 0
+	case uint8:
+		return y == 0
+	case uint16:
+		return y == 0
+	case uint32:
+		return y == 0
+	case uint64:
+		return y == 0
+	case uintptr:
+		return y == 0
+	}
+	return false
+}
+
+func unop(fr *frame, instr *ssa.UnOp, x value) value {
+	if sx, ok := x.(*sym); ok {
+		return symUnop(instr.Op, sx)
+	}
 	switch instr.Op {
 	case token.ARROW: // receive
-		v, ok := <-x.(chan value)
+		v, ok := chanRecv(fr, x)
 		if !ok {
 			v = zero(instr.X.Type().Underlying().(*types.Chan).Elem())
 		}
@@ -883,7 +967,7 @@ func unop(instr *ssa.UnOp, x value) value {
 			return -x
 		}
 	case token.MUL:
-		return load(typeparams.MustDeref(instr.X.Type()), x.(*value))
+		return load(mustDeref(instr.X.Type()), derefPtr(x, "load"))
 	case token.NOT:
 		return !x.(bool)
 	case token.XOR:
@@ -960,6 +1044,9 @@ func callBuiltin(caller *frame, callpos token.Pos, fn *ssa.Builtin, args []value
 		if len(args) == 1 {
 			return args[0]
 		}
+		if _, ok := args[1].(*sym); ok {
+			panic(engineErr("append([]byte, symbolic string...)"))
+		}
 		if s, ok := args[1].(string); ok {
 			// append([]byte, ...string) []byte
 			arg0 := args[0].([]value)
@@ -975,22 +1062,20 @@ func callBuiltin(caller *frame, callpos token.Pos, fn *ssa.Builtin, args []value
 		src := args[1]
 		if _, ok := src.(string); ok {
 			params := fn.Type().(*types.Signature).Params()
-			src = conv(params.At(0).Type(), params.At(1).Type(), src)
+			src = conv(caller, params.At(0).Type(), params.At(1).Type(), src)
 		}
 		return copy(args[0].([]value), src.([]value))
 
 	case "close": // close(chan T)
-		close(args[0].(chan value))
+		chanClose(caller, args[0])
 		return nil
 
 	case "delete": // delete(map[K]value, K)
 		switch m := args[0].(type) {
-		case map[value]value:
-			delete(m, args[1])
-		case *hashmap:
-			m.delete(args[1].(hashable))
+		case *amap:
+			m.delete(caller, args[1])
 		default:
-			panic(fmt.Sprintf("illegal map type: %T", m))
+			panic(engineErr(fmt.Sprintf("illegal map type: %T", m)))
 		}
 		return nil
 
@@ -1013,16 +1098,18 @@ func callBuiltin(caller *frame, callpos token.Pos, fn *ssa.Builtin, args []value
 		switch x := args[0].(type) {
 		case string:
 			return len(x)
+		case *sym:
+			return symLen(x)
 		case array:
 			return len(x)
 		case *value:
 			return len((*x).(array))
 		case []value:
 			return len(x)
-		case map[value]value:
-			return len(x)
-		case *hashmap:
+		case *amap:
 			return x.len()
+		case *schan:
+			return len(x.buf)
 		case chan value:
 			return len(x)
 		default:
@@ -1037,6 +1124,8 @@ func callBuiltin(caller *frame, callpos token.Pos, fn *ssa.Builtin, args []value
 			return cap((*x).(array))
 		case []value:
 			return cap(x)
+		case *schan:
+			return x.cap
 		case chan value:
 			return cap(x)
 		default:
@@ -1103,12 +1192,12 @@ func callBuiltin(caller *frame, callpos token.Pos, fn *ssa.Builtin, args []value
 	panic("unknown built-in: " + fn.Name())
 }
 
-func rangeIter(x value, t types.Type) iter {
+func rangeIter(fr *frame, x value, t types.Type) iter {
 	switch x := x.(type) {
-	case map[value]value:
-		return &mapIter{iter: reflect.ValueOf(x).MapRange()}
-	case *hashmap:
-		return &hashmapIter{iter: reflect.ValueOf(x.entries()).MapRange()}
+	case *amap:
+		return x.iterator()
+	case *sym:
+		panic(engineErr("range over symbolic string"))
 	case string:
 		return &stringIter{Reader: strings.NewReader(x)}
 	}
@@ -1155,7 +1244,10 @@ func widen(x value) value {
 // conv converts the value x of type t_src to type t_dst and returns
 // the result.
 // Possible cases are described with the ssa.Convert operator.
-func conv(t_dst, t_src types.Type, x value) value {
+func conv(fr *frame, t_dst, t_src types.Type, x value) value {
+	if sx, ok := x.(*sym); ok {
+		return symConv(t_dst, t_src, sx)
+	}
 	ut_src := t_src.Underlying()
 	ut_dst := t_dst.Underlying()
 
@@ -1432,7 +1524,7 @@ func min(x, y value) value {
 	}
 
 	// return (y < x) ? y : x
-	if binop(token.LSS, nil, y, x).(bool) {
+	if binop(nil, token.LSS, nil, y, x).(bool) {
 		return y
 	}
 	return x
@@ -1447,7 +1539,7 @@ func max(x, y value) value {
 	}
 
 	// return (y > x) ? y : x
-	if binop(token.GTR, nil, y, x).(bool) {
+	if binop(nil, token.GTR, nil, y, x).(bool) {
 		return y
 	}
 	return x
